@@ -168,7 +168,7 @@ class G(object):
         k = r.random()
         if k < 0.4:
             return {'t': 'dmath', 'style': r.choice(['\\[', 'displaymath']), 'words': [self.mark()]}
-        node = {'t': 'equation', 'star': self.o['star'] and r.random() < 0.15, 'words': [self.mark()]}
+        node = {'t': 'equation', 'star': False, 'words': [self.mark()]}      # equation* is amsmath, not base LaTeX
         if self.o['eqnarray'] and r.random() < 0.3:
             node = {'t': 'eqnarray', 'star': False, 'rows': [{'words': [self.mark()], 'nonumber': r.random() < 0.3} for _ in range(r.randint(1, 3))]}
             if self.o['labels']:
@@ -211,7 +211,7 @@ class G(object):
         if name.startswith('zq'):
             self.used_theorems.add(name)
         op = r.choice(['setcounter', 'addtocounter', 'stepcounter'])
-        return {'t': 'counter', 'op': op, 'name': name, 'value': r.choice([0, 1, 2, 5, 10]) if op == 'setcounter' else r.choice([1, 2, -1])}
+        return {'t': 'counter', 'op': op, 'name': name, 'value': r.choice([0, 1, 2, 5, 10]) if op == 'setcounter' else r.choice([1, 2, 3])}
 
     # -- sections ---------------------------------------------------------------
     def section(self, level, depth):
